@@ -21,9 +21,10 @@ def init (f : List String) : St := { e := E2EStream.monInit f }
 def hexToStr (h : String) : String :=
   String.ofList ((WriterStream.parseHexBytes h).toList.map Char.ofNat)
 
-/-- start-up clean-up removes exactly the names the pattern `*.cptv.temp*` matches (`FS.globMatch`, `Props.C10`) -/
+/-- start-up clean-up removes exactly the names the pattern `"*." + cptvTempExt + "*"` matches (`FS.globMatch`; this is
+`TR.C10Glob.removed`, characterised for arbitrary names by `Props.C10Glob.removed_iff`: the name contains `.cptv.temp`) -/
 def survives (hexName : String) : Bool :=
-  !(FS.globMatch "*.cptv.temp*".toList (hexToStr hexName).toList)
+  !(FS.globMatch ("*." ++ Facts.cptvTempExt ++ "*").toList (hexToStr hexName).toList)
 
 def invalid (f : List String) : Bool := E2EStream.kvN f "max" < E2EStream.kvN f "min"
 
